@@ -240,7 +240,7 @@ Proof.
     { unfold x1. destruct (s_transport x); auto. cbn. unfold tr_close. destruct (tstate_of x n); reflexivity. }
     destruct (s_fut x1); auto. destruct (pending x1 n); auto. unfold complete. cbv zeta. destruct (awaiting _ _); cbn; exact Hx. }
   assert (He : forall x, s_partial (fst (error_received x)) = s_partial x).
-  { intros x. unfold error_received. destruct (s_fut x); cbn [fst]; rewrite Hc; auto.
+  { intros x. unfold error_received. destruct (s_fut x); cbn [fst]; rewrite ?Hc; auto.
     destruct (pending x n); auto. unfold complete. cbv zeta. destruct (awaiting _ _); reflexivity. }
   set (y := match s_sends s2 with b :: tl => (b, s2 <| s_sends := tl |>) | [] => (true, s2) end).
   assert (Hy : s_partial (snd y) = None) by (unfold y; destruct (s_sends s2); exact H2).
